@@ -163,6 +163,7 @@ type vfSim struct {
 	dupAsError bool // duplicates answered DUPLICATE_SEQUENCE_NUMBER instead of success with the original offset
 	extra      map[int16]func(c *vfSimConn, key, version int16, body []byte) (resp []byte, action string)
 	groups     map[string]*vfGroupState
+	groupLayer *vfGroupLayer
 	// metadata serving log for C15
 	metaServed []vfMetaServed
 	identOf    func(rec *vfsRecord) int // maps a record to the submitted message index (-1 unknown)
@@ -179,10 +180,11 @@ type vfMetaServed struct {
 }
 
 type vfSimConn struct {
-	id     int
-	broker *vfBrokerState
-	conn   *vfConn
-	sim    *vfSim
+	id           int
+	broker       *vfBrokerState
+	conn         *vfConn
+	sim          *vfSim
+	lastClientID string
 }
 
 func newVfSim(nBrokers int) *vfSim {
@@ -261,6 +263,42 @@ func (s *vfSim) setFaults(f map[string][]vfFault) {
 	s.mu.Lock()
 	for k, v := range f {
 		s.faults[k] = append([]vfFault(nil), v...)
+	}
+	s.mu.Unlock()
+}
+
+// appendFaults schedules outcomes for the next occurrences of key that have none yet.
+func (s *vfSim) appendFaults(key string, fs []vfFault) {
+	s.mu.Lock()
+	l := s.faults[key]
+	for len(l) < s.occ[key] {
+		l = append(l, vfFault{Kind: "ok"})
+	}
+	s.faults[key] = append(l, fs...)
+	s.mu.Unlock()
+}
+
+// appendFaultsAt sets the outcome of occurrence occ (0-based) of key, padding with ok.
+func (s *vfSim) appendFaultsAt(key string, occ int, f vfFault) {
+	s.mu.Lock()
+	l := s.faults[key]
+	for len(l) <= occ {
+		l = append(l, vfFault{Kind: "ok"})
+	}
+	if l[occ].Kind == "ok" && l[occ].Gate == "" {
+		l[occ].Gate = f.Gate
+	} else {
+		l[occ].Gate = f.Gate // keep the scripted verdict, add the gate
+	}
+	s.faults[key] = l
+	s.mu.Unlock()
+}
+
+// clearFaults drops everything still scheduled for key (the peer behaves from now on).
+func (s *vfSim) clearFaults(key string) {
+	s.mu.Lock()
+	if l := s.faults[key]; len(l) > s.occ[key] {
+		s.faults[key] = l[:s.occ[key]]
 	}
 	s.mu.Unlock()
 }
@@ -490,7 +528,9 @@ func (c *vfSimConn) handle(payload []byte, wireSize int) bool {
 	version := r.i16()
 	corr := r.i32()
 	clientID := r.nstr()
-	_ = clientID
+	if clientID != nil {
+		c.lastClientID = *clientID
+	}
 	if r.err != nil {
 		s.ev(vfEvent{Kind: "client-wire-violation", Broker: c.broker.ID, Conn: c.id, Note: "request header: " + r.err.Error()}, true)
 		return false
